@@ -12,7 +12,15 @@ type Options struct {
 	RegCache    *sync.Map // type/name => id (encoding), id => type (for decoding)
 	ErrCache    *sync.Map // error => id (for encoder), id => error (for decoder)
 	Cache       *sync.Map // common cache (caching reflect.Type => encoder, string([]byte) => decoder)
+
+	// nesting depth of the interface-typed values being decoded (set by Decode)
+	depth *int
 }
+
+// maxDecodeDepth limits the nesting of interface-typed values in the decoded data:
+// every level is a recursive call chosen by the data itself, and a chain of them
+// (one byte per level) would otherwise run the stack of the process out
+const maxDecodeDepth = 10000
 
 const (
 	edtType = byte(130) // 0x82
